@@ -193,3 +193,72 @@ def bip32_master(seed):
     if k == 0 or k >= SECP256K1_N:
         return None
     return k, i64[32:]
+
+
+# --------------------------------------------------------------------------- closure-free instances
+def pbkdf2_sha512(p, s, c, dklen):
+    """PBKDF2 with PRF = HMAC-SHA512 (hLen = 64): T_1 || T_2 || ... truncated to dklen"""
+    dk = b""
+    for i in range(1, -(-dklen // 64) + 1):
+        dk = dk + F_sha512(p, s, c, i)
+    return dk[:dklen]
+
+
+def pbkdf2_sha1(p, s, c, dklen):
+    """PBKDF2 with PRF = HMAC-SHA1 (hLen = 20)"""
+    dk = b""
+    for i in range(1, -(-dklen // 20) + 1):
+        dk = dk + F_sha1(p, s, c, i)
+    return dk[:dklen]
+
+
+def as_bytes(x):
+    """passwords/salts given as text are taken as their UTF-8 encoding"""
+    return x if isinstance(x, bytes) else x.encode("utf-8")
+
+
+# --------------------------------------------------------------------------- English word list (data)
+ENGLISH_SHA256 = "2f5eed53a4727b4bf8880d8f3f199efc90e58503646d9ff8eff3a2ed3b24dbda"   # bips/bip-0039/english.txt
+_ENGLISH = None
+
+
+def english_words(path="/repo/buidl/bip39_words.txt"):
+    """the 2048 words, read from the data file (not through buidl code); the file is pinned to the
+    canonical english.txt by SHA-256 in the C14 `wordlist` table"""
+    global _ENGLISH
+    if _ENGLISH is None:
+        with open(path, "rb") as f:
+            _ENGLISH = tuple(w.decode("ascii") for w in f.read().split())
+    return _ENGLISH
+
+
+def sentence(idx):
+    """mnemonic sentence (full words separated by one ASCII space) as bytes"""
+    w = english_words()
+    return " ".join(w[i] for i in idx).encode("ascii")
+
+
+def seed_of_indices(idx, passphrase):
+    return bip39_seed(sentence(idx), passphrase)
+
+
+# --------------------------------------------------------------------------- BIP32 serialisation of the master key
+_B58 = "123456789ABCDEFGHJKLMNPQRSTUVWXYZabcdefghijkmnopqrstuvwxyz"
+
+
+def base58check(payload):
+    data = payload + hashlib.sha256(hashlib.sha256(payload).digest()).digest()[:4]
+    n = int.from_bytes(data, "big")
+    out = ""
+    while n:
+        n, r = divmod(n, 58)
+        out = _B58[r] + out
+    pad = len(data) - len(data.lstrip(b"\x00"))
+    return "1" * pad + out
+
+
+def master_xprv(seed):
+    """mainnet xprv of the master node: version 0x0488ADE4, depth 0, parent fingerprint 0, child number 0,
+    chain code, 0x00 || ser256(k)"""
+    k, c = bip32_master(seed)
+    return base58check(bytes.fromhex("0488ade4") + b"\x00" + bytes(4) + bytes(4) + c + b"\x00" + k.to_bytes(32, "big"))
